@@ -187,6 +187,12 @@ fn judge_input_inner(ctx: &mut Ctx, class: &str, bytes: &[u8], opts: JudgeOpts) 
     Judged { outs }
 }
 
+/// Run the input-level monitors on an outcome that was obtained elsewhere (another thread).
+pub fn judge_outcome(ctx: &mut Ctx, class: &str, kt: KT, bytes: &[u8], out: &DecOut) {
+    let rd = ref_decode(bytes, kt);
+    monitor_one(ctx, class, "decode", kt, bytes, &rd, out);
+}
+
 fn monitor_one(ctx: &mut Ctx, class: &str, entry: &str, kt: KT, bytes: &[u8], rd: &RefOut, out: &DecOut) {
     let ktn = kt.name();
     // ---------------- C03
